@@ -392,6 +392,33 @@ func (l *Lab) Do(i int) (res OpResult) {
 		}
 		l.M.MPVersion = 0
 
+	case KCompact:
+		before()
+		err := l.DB.Compact()
+		after()
+		res.Class = ErrClass(err)
+		if err != nil {
+			res.ErrText = err.Error()
+		}
+
+	case KReopen:
+		if l.Dir == "" {
+			res.Skipped = true // a memory-only database cannot be reopened
+			return
+		}
+		before()
+		l.Raw.Close()
+		raw, err := Open(l.Backend, l.Dir)
+		after()
+		if err != nil {
+			res.Class, res.ErrText = ErrClass(err), "reopen: "+err.Error()
+			l.Raw = nil
+			return
+		}
+		l.Raw = raw
+		l.DB = NewRecorder(raw)
+		l.restorer = nil
+
 	default:
 		res.Skipped = true
 	}
